@@ -239,8 +239,13 @@ impl BinaryDeserializer for char {
 
 impl BinaryDeserializer for String {
     fn deserialize(context: &mut DeserializationContext<'_>) -> Result<Self> {
-        let id = context.read_var_i32()?;
-        let bytes = context.read_bytes(id as usize)?;
+        let length = context.read_var_i32()?;
+        if length < 0 {
+            return Err(Error::DeserializationFailure(format!(
+                "Invalid string length: {length}"
+            )));
+        }
+        let bytes = context.read_bytes(length as usize)?;
         Ok(String::from_utf8(bytes.to_vec())?)
     }
 }
@@ -249,7 +254,11 @@ impl BinaryDeserializer for DeduplicatedString {
     fn deserialize(context: &mut DeserializationContext<'_>) -> Result<Self> {
         let count_or_id = context.read_var_i32()?;
         if count_or_id < 0 {
-            let id = StringId(-count_or_id);
+            let Some(id) = count_or_id.checked_neg().map(StringId) else {
+                return Err(Error::DeserializationFailure(format!(
+                    "Invalid string id: {count_or_id}"
+                )));
+            };
             match context.state().get_string_by_id(id) {
                 Some(s) => Ok(DeduplicatedString(s.to_string())),
                 None => Err(Error::InvalidStringId(id)),
@@ -405,6 +414,7 @@ fn deserialize_iterator<'a, 'b, T: BinaryDeserializer + 'a>(
             context,
             element: PhantomData,
         },
+        Ok(length) if length < 0 => DeserializerIterator::InvalidLength(length),
         Ok(length) => DeserializerIterator::KnownSize {
             context,
             remaining: length as usize,
@@ -424,6 +434,7 @@ enum DeserializerIterator<'a, 'b, T: BinaryDeserializer + 'a> {
         element: PhantomData<T>,
     },
     InputEndedUnexpectedly,
+    InvalidLength(i32),
 }
 
 impl<'a, 'b, T: BinaryDeserializer + 'a> Iterator for DeserializerIterator<'a, 'b, T> {
@@ -440,6 +451,9 @@ impl<'a, 'b, T: BinaryDeserializer + 'a> Iterator for DeserializerIterator<'a, '
             DeserializerIterator::InputEndedUnexpectedly => {
                 Some(Err(Error::InputEndedUnexpectedly))
             }
+            DeserializerIterator::InvalidLength(length) => Some(Err(
+                Error::DeserializationFailure(format!("Invalid sequence length: {length}")),
+            )),
             DeserializerIterator::KnownSize {
                 ref mut context,
                 remaining,
